@@ -224,8 +224,11 @@ def _compare(interp, op, a, b):
     if op in ('In', 'NotIn'):
         r = _contains(interp, b, a)
         return r if op == 'In' else (Not(r) if isinstance(r, Sym) else (not r))
+    if op in ('Is', 'IsNot') and isinstance(a, I.ObjRef) and isinstance(b, I.ObjRef):
+        r = eq(a.ref_id, b.ref_id)
+        return r if op == 'Is' else (Not(r) if isinstance(r, Sym) else (not r))
     if op in ('Is', 'IsNot'):
-        if a is None or b is None or isinstance(a, (I.SObj, SArr, list, dict)) or isinstance(b, (I.SObj, SArr, list, dict)):
+        if a is None or b is None or isinstance(a, (I.SObj, SArr, list, dict, I.ObjRef, I.SList)) or isinstance(b, (I.SObj, SArr, list, dict, I.ObjRef, I.SList)):
             r = a is b
             return r if op == 'Is' else not r
         return _scalar_compare(op, a, b)
@@ -465,6 +468,11 @@ def _type_matches(interp, v, t):
             return tag == 'list' and not isinstance(v, I.LazySeq) or isinstance(v, I.LazySeq)
         return tag == t.name
     if isinstance(t, I.ClassRef):
+        if isinstance(v, I.ObjRef):
+            if '__isinstance__' in v.heap.kinds:
+                # class membership of an arbitrary reference is symbolic (any object may be offered)
+                return And(v.heap.read('__isinstance__', v.ref_id), interp.is_subclass(v.cls, t.cls) if v.cls is not None else False)
+            return v.cls is not None and interp.is_subclass(v.cls, t.cls)
         return isinstance(v, I.SObj) and v.cls is not None and interp.is_subclass(v.cls, t.cls)
     if isinstance(t, I.LibRef):
         if t.path in ('numpy.ndarray',):
@@ -587,6 +595,8 @@ def _list(interp, x=()):
     I = _I()
     if isinstance(x, I.LazySeq):
         return x
+    if isinstance(x, I.SList):
+        return x.snapshot()
     seq = interp.concrete_iter(x)
     if seq is None:
         if hasattr(x, 'to_list'):
@@ -728,6 +738,8 @@ def _method(tag, name):
 
 @_method('list', 'append')
 def _l_append(interp, lst, x):
+    if isinstance(lst, _I().SList):
+        return lst.append(interp, x)
     if not isinstance(lst, list):
         raise Unsupported("append on lazy sequence")
     lst.append(x)
@@ -743,6 +755,8 @@ def _l_extend(interp, lst, xs):
 
 @_method('list', 'insert')
 def _l_insert(interp, lst, i, x):
+    if isinstance(lst, _I().SList):
+        return lst.insert(interp, i, x)
     ci = conc_int(i)
     if ci is None:
         # python clamps: position = clamp(i if i>=0 else len+i, 0, len)
@@ -761,6 +775,8 @@ def _l_insert(interp, lst, i, x):
 
 @_method('list', 'pop')
 def _l_pop(interp, lst, i=-1):
+    if isinstance(lst, _I().SList):
+        return lst.pop(interp, i)
     ci = conc_int(i)
     if ci is None:
         raise Unsupported("symbolic pop index")
@@ -810,6 +826,8 @@ def _d_values(interp, d):
 
 @_method('dict', 'update')
 def _d_update(interp, d, other=None, **kw):
+    if isinstance(d, _I().DictRef):
+        return d.update(interp, other)
     if other is not None:
         if isinstance(other, dict):
             d.update(other)
@@ -966,6 +984,9 @@ def _pick(seq, i):
 @_np('array')
 def np_array(interp, x, dtype=None, **kw):
     I = _I()
+    if isinstance(x, I.SList):
+        snap = x.snapshot()
+        return SArr((snap.length,), lambda idx: snap.at(idx[0]), 'obj')
     if isinstance(x, SArr):
         r = x.copy()
     elif isinstance(x, I.LazySeq):
